@@ -325,6 +325,12 @@ def run(index, rep, tier):
         rep.rule("R19.9", "character-subset labels are probed the way they are stored: every keyed access of the caseless maps folds the key with the one folding method (C10 R10.9)")
         rep.floor("R19.9", "borrowed obligations", 5, borrow(index, rep, "C10", {"R10.9"}, "R19.9"))
 
+    # ---- R19.10 queries do not add rows
+    with rep.section("R19.10"):
+        rep.rule("R19.10", "queries and bulk operations touch only rows that exist: inside the matrix classes `self[taxon]` (whose __getitem__ creates a row) is read only for taxa obtained by iterating the matrix itself, tested for membership, or just stored")
+        from . import c09
+        rep.floor("R19.10", "self[taxon] reads in the matrix classes", 5, c09.matrix_read_rule(index, rep, "R19.10", ["dendropy.datamodel.charmatrixmodel"]))
+
 
 def _r19_3(rep, fi, seeds):
     t = tainted_names(fi, seeds)
